@@ -42,7 +42,7 @@ def expressible(spec):
         first_e.setdefault((d["service"], d["os"]), n)
     for n, d in spec.privescs.items():
         first_p.setdefault((d["process"], d["os"]), n)
-    return set(first_e.values()) | set(first_p.values())
+    return {("exploit", n) for n in first_e.values()} | {("privesc", n) for n in first_p.values()}
 
 
 def run_case(case, rep, record=True):
@@ -75,7 +75,7 @@ def run_case(case, rep, record=True):
             if op[0] in ("g", "o", "b"):
                 continue
             act = h.choose(op)
-            if act.kind in ("exploit", "privesc") and act.name not in ok_names:
+            if act.kind in ("exploit", "privesc") and (act.kind, act.name) not in ok_names:
                 if record:
                     rep.count("skipped-not-expressible")
                 continue
